@@ -1,5 +1,5 @@
-\* generation: every transition of the sequential one-account graph (nonces 1..4) printed once
-SPECIFICATION SeqSpec
+\* generation: every transition of the sequential one-account graph (nonces 1..4) printed once (+ the forced put steps of the pair schedules, "TF|" lines, not followed)
+SPECIFICATION PairSpec
 CONSTANTS
   Accounts <- A1
   Txs <- TxsG1
